@@ -1250,6 +1250,44 @@ func (c *c02ctx) r4Indexing() {
 						r.OK("C02.R4", key, pos, "array of %d elements indexed by a value bounded by %d (dominating comparison / type range)", n, bound)
 						return
 					}
+					// x - k on an unsigned value: without x >= k the subtraction wraps to a huge index
+					if sub, ok := iv.(*ssa.BinOp); ok && sub.Op == token.SUB {
+						if k, isK := constIntVal(sub.Y); isK && k > 0 {
+							if bt, ok := sub.X.Type().Underlying().(*types.Basic); ok && bt.Info()&types.IsUnsigned != 0 {
+								lowOK, upper := false, int64(-1)
+								for _, dc := range dominatingConds(in.Block()) {
+									bo, ok := dc.cond.(*ssa.BinOp)
+									if !ok || bo.X != sub.X {
+										continue
+									}
+									kk, ok := constIntVal(bo.Y)
+									if !ok {
+										continue
+									}
+									op := bo.Op
+									if !dc.outcome {
+										op = map[token.Token]token.Token{token.LSS: token.GEQ, token.LEQ: token.GTR, token.GTR: token.LEQ, token.GEQ: token.LSS, token.EQL: token.NEQ, token.NEQ: token.EQL}[op]
+									}
+									switch {
+									case op == token.GEQ && kk >= k, op == token.GTR && kk >= k-1, op == token.NEQ && kk == 0 && k == 1:
+										lowOK = true
+									case op == token.LEQ:
+										upper = kk - k
+									case op == token.LSS:
+										upper = kk - 1 - k
+									}
+								}
+								if lowOK && upper >= 0 && upper < n {
+									r.OK("C02.R4", key, pos, "array of %d elements indexed by x-%d with %d <= x <= %d established by dominating comparisons", n, k, k, upper+k)
+								} else if !lowOK {
+									r.Bad("C02.R4", key, pos, "an array is indexed by x-%d where x is unsigned and nothing establishes x >= %d: for smaller x the subtraction wraps around and the index is far out of range (panic), reachable while decoding", k, k)
+								} else {
+									r.Unk("C02.R4", key, pos, "index expression of %s not understood", describeVal(x))
+								}
+								return
+							}
+						}
+					}
 				}
 				// the result of a -1-sentinel search over the indexed slice itself, used where it is known non-negative
 				if call, ok := unspill(idx).(*ssa.Call); ok && len(call.Call.Args) >= 1 && sameSlice(call.Call.Args[0], x) {
@@ -1724,6 +1762,12 @@ func (c *c02ctx) r6Loops() {
 			for b := range body {
 				for _, in := range b.Instrs {
 					if call := callOf(in); call != nil && consuming(call) {
+						// a read that reports an error makes progress only if its failure leaves the loop: when the
+						// error edge stays inside (recorded, loop continues) a sticky error — a truncated or ill-formed
+						// document — keeps the loop spinning without consuming anything
+						if v, isVal := in.(ssa.Value); isVal && errorEdgeStaysInLoop(v, body) {
+							continue
+						}
 						blocked[b] = true
 					}
 				}
@@ -2373,4 +2417,59 @@ func rangeNextOf(h *ssa.BasicBlock) (*ssa.Next, bool) {
 		}
 	}
 	return nil, false
+}
+
+// errorEdgeStaysInLoop: the error result of call is tested with `err != nil` (or == nil) and the branch taken on a
+// non-nil error leads to a block of the loop body.
+func errorEdgeStaysInLoop(call ssa.Value, body map[*ssa.BasicBlock]bool) bool {
+	errT := types.Universe.Lookup("error").Type()
+	var errVals []ssa.Value
+	if types.Identical(call.Type(), errT) {
+		errVals = append(errVals, call)
+	}
+	if refs := call.Referrers(); refs != nil {
+		for _, ref := range *refs {
+			if ex, ok := ref.(*ssa.Extract); ok && types.Identical(ex.Type(), errT) {
+				errVals = append(errVals, ex)
+			}
+		}
+	}
+	for _, ev := range errVals {
+		refs := ev.Referrers()
+		if refs == nil {
+			continue
+		}
+		for _, ref := range *refs {
+			bo, ok := ref.(*ssa.BinOp)
+			if !ok || !isNilConst(bo.Y) || (bo.Op != token.NEQ && bo.Op != token.EQL) {
+				continue
+			}
+			for _, r2 := range *bo.Referrers() {
+				iff, ok := r2.(*ssa.If)
+				if !ok {
+					continue
+				}
+				errSucc := iff.Block().Succs[0]
+				if bo.Op == token.EQL {
+					errSucc = iff.Block().Succs[1]
+				}
+				if body[errSucc] {
+					// unless that block leaves at once (return / break to a block outside)
+					if _, isRet := errSucc.Instrs[len(errSucc.Instrs)-1].(*ssa.Return); isRet {
+						continue
+					}
+					stays := false
+					for _, sc := range errSucc.Succs {
+						if body[sc] {
+							stays = true
+						}
+					}
+					if stays {
+						return true
+					}
+				}
+			}
+		}
+	}
+	return false
 }
